@@ -66,7 +66,7 @@ fn tree<'a, 'b, 'c, 'd>(
                 State::Content(vec![ContentPart::Text(Text { token: t })]),
                 |el| {
                     if el.name.starts_with("/") {
-                        let pair_name = el.name.trim_start_matches("/");
+                        let pair_name = el.name.strip_prefix("/").unwrap_or(el.name);
                         if parent_elements
                             .iter()
                             .any(|parent_el| parent_el.name == pair_name)
@@ -84,7 +84,7 @@ fn tree<'a, 'b, 'c, 'd>(
                     cursor = new_cursor;
 
                     if let Some((end_token, end_el)) = end_part {
-                        if el.name == end_el.name.trim_start_matches("/") {
+                        if el.name == end_el.name.strip_prefix("/").unwrap_or(end_el.name) {
                             State::Content(vec![ContentPart::Element(Element {
                                 start_element: el,
                                 start_token: t,
